@@ -649,6 +649,9 @@ def refine_droplet(
     if vmax is None:
         vmax = np.max(data_mask)
     vrng = vmax - vmin
+    # measure deviations in units of the intensity range, so that the stopping rule of
+    # the optimization does not depend on the intensity scale of the image
+    residual_scale = abs(vrng) if vrng != 0 else 1.0
 
     if adjust_values and vrng != 0:
         # fit intensities in addition to all droplet parameters
@@ -665,7 +668,7 @@ def refine_droplet(
             droplet.data = unstructured_to_structured(data_flat, dtype=dtype)
             droplet.check_data()
             img = vmin + vrng * droplet._get_phase_field(phase_field.grid)[mask]
-            return img - data_mask
+            return (img - data_mask) / residual_scale
 
         # do the least square optimization
         result = optimize.least_squares(
@@ -683,7 +686,7 @@ def refine_droplet(
             droplet.data = unstructured_to_structured(data_flat, dtype=dtype)
             droplet.check_data()
             img = vmin + vrng * droplet._get_phase_field(phase_field.grid)[mask]
-            return img - data_mask
+            return (img - data_mask) / residual_scale
 
         # do the least square optimization
         result = optimize.least_squares(
